@@ -5,6 +5,7 @@ import Gimli.Lemmas.Capacity
 import Gimli.Lemmas.SimRun
 import Gimli.Lemmas.IterWrap
 import Gimli.Lemmas.RunLimit
+import Gimli.Lemmas.StackInv
 /-!
 # C07 — Expression decoding and evaluation equal the DWARF stack machine
 
@@ -201,6 +202,15 @@ theorem stack_capacity (fuel : Nat) (s : Eval) :
     (evaluateInternal fuel s).map heapRes = .err .rStackFull ∨
       (evaluateInternal fuel s).map heapRes = (evaluateInternal fuel (heapState s)).map heapRes :=
   evaluateInternal_cap fuel s
+
+/-- **`stack_capacity`** (invariant). The value stack of a fixed-capacity evaluator never holds more
+than `n` values: every state `evaluate` / `resume_with_*` return satisfies the bound if the state
+they start from does (a fresh evaluator has an empty stack). Together with `stack_full_iff`:
+`StackFull` is returned exactly at the pushes that would take the stack beyond `n`. -/
+theorem stack_within_capacity (fuel : Nat) (s : Eval) (r : Request) (s' : Eval) (h0 : StackOk s.cfg s.m) :
+    (evaluateInternal fuel s = .ok (r, s') → StackOk s'.cfg s'.m) ∧
+    (∀ a, resume fuel a s = .ok (r, s') → StackOk s'.cfg s'.m) :=
+  ⟨fun h => (evaluateInternal_stackOk fuel s r s' h0 h).2, fun a h => (resume_stackOk fuel a s r s' h0 h).2⟩
 
 /-- four pushes into `[Value; 3]` -/
 example :
